@@ -45,8 +45,24 @@ def one(name):
 
 names = sorted(n for n in os.listdir(ROOT)
                if os.path.isdir(os.path.join(ROOT, n)) and n.startswith(only))
-with ThreadPoolExecutor(jobs) as ex:
-    results = list(ex.map(one, names))
+if only == 'TABLE':
+    # rebuild RESULTS.md from what the meta.json files record
+    names = sorted(n for n in os.listdir(ROOT)
+                   if os.path.isdir(os.path.join(ROOT, n)))
+    results = []
+    for n in names:
+        meta = json.load(open(os.path.join(ROOT, n, 'meta.json')))
+        m = re.search(r'demo exit (\S+) on an unpatched copy.*?exit (\S+) on '
+                      r'the patched copy; pytest on the patched copy: (.*)',
+                      meta.get('confirmed_by', ''))
+        conf = m.groups() if m else None
+        if meta.get('superseded'):
+            conf = ('-', '-', 'superseded, see meta.json')
+        results.append((n, conf, meta.get('checks_run') or {}))
+    only = ''
+else:
+    with ThreadPoolExecutor(jobs) as ex:
+        results = list(ex.map(one, names))
 lines = ['# Seeded property-breaking changes: confirmation and detection', '',
          '| seed | demo (clean / patched) | suite on patched copy | caught by | missed by |',
          '|---|---|---|---|---|']
